@@ -96,10 +96,23 @@ def run_binding(sc):
             needs = kind in LOOPY or kind in SOURCES
             if needs:
                 info['loopy'] += 1
+            ch2 = chains.get(st.get('other')) if kind == 'join' else None
+            if kind == 'join' and (ch is None or ch2 is None or ch is ch2):
+                continue           # (a scenario produced by shrinking may have lost one side)
             # ---- model -------------------------------------------------
             m_loop = ch['loop'] if ch else None
             m_mode = ch['mode'] if ch else None
             conflict = False
+            if kind == 'join':
+                # joining two pipelines: bound to different loops (or to different modes) must raise;
+                # otherwise the unbound side takes loop and mode of the bound one
+                l2, md2 = ch2['loop'], ch2['mode']
+                if m_loop is not None and l2 is not None and m_loop != l2:
+                    conflict = True
+                if m_mode is not None and md2 is not None and bool(m_mode) != bool(md2):
+                    conflict = True
+                m_loop = m_loop or l2
+                m_mode = m_mode if m_mode is not None else md2
             if lname is not None and m_loop is not None and lname != m_loop:
                 conflict = True
             if a is not None and m_mode is not None and a != m_mode:
@@ -133,6 +146,9 @@ def run_binding(sc):
                     node = up.unique(**kw)
                 elif kind == 'union1':
                     node = up.union(**kw)
+                elif kind == 'join':
+                    up2 = ch2['nodes'][st.get('other_parent', -1)]
+                    node = up.union(up2) if st.get('how', 'union') == 'union' else up.zip(up2)
                 elif kind in ('sink', 'sink_needs'):
                     node = up.sink(user_fn, **kw)
                 elif kind == 'buffer':
@@ -180,6 +196,12 @@ def run_binding(sc):
             keep.append(node)
             if ch is None:
                 ch = chains[st['chain']] = {'nodes': [], 'loop': None, 'mode': None}
+            if kind == 'join':
+                # the two pipelines are one from now on
+                ch['nodes'].extend(ch2['nodes'])
+                for cid in list(chains):
+                    if chains[cid] is ch2:
+                        chains[cid] = ch
             ch['nodes'].append(node)
             ch['loop'], ch['mode'] = n_loop, n_mode
             # ---- compare -------------------------------------------------
@@ -188,6 +210,11 @@ def run_binding(sc):
                 info['bg'] += 1
             exp_loop = {'caller': caller, 'other': other, 'bg': bg_loop[0], None: None}[n_loop]
             for nd in ch['nodes']:
+                if nd.loop is None and exp_loop is not None:
+                    V.append(Violation('C19', 'C19.split', len(rec.events) - 1,
+                                       '%s: the pipeline is bound to %s but its node %s has no loop (emit there would run outside the loop)'
+                                       % (where, n_loop, type(nd).__name__), node_op=kind))
+                    return
                 if nd.loop is not None and exp_loop is not None and nd.loop is not exp_loop:
                     V.append(Violation('C19', 'C19.split' if a is not True else 'C19.async_off_loop', len(rec.events) - 1,
                                        '%s: node %s of the pipeline is bound to %s, the pipeline to %s'
@@ -318,6 +345,8 @@ def evaluate(prop, sc, want_trace=False):
         out.probes['conflict_raised'] = 1
     if info['bg']:
         out.probes['background_loop_used'] = 1
+    if any(st['kind'] == 'join' for st in sc['steps']):
+        out.probes['pipelines_joined'] = 1
     out.nontrivial = bool(info['explicit'] or info['loopy'])
     if want_trace:
         import types
@@ -357,6 +386,10 @@ def generate(prop, rng, seed, index, tier):
             st.update(kwargs(kind, False))
             steps.append(st)
             kinds.append(kind)
+    joins = []
+    if nchains >= 2 and rng.random() < 0.5:
+        a, b2 = rng.sample(range(nchains), 2)
+        joins.append({'chain': a, 'other': b2, 'kind': 'join', 'how': rng.choice(['union', 'union', 'zip'])})
     # interleave the chains' constructors
     order = []
     per = {}
@@ -365,6 +398,28 @@ def generate(prop, rng, seed, index, tier):
     while any(per.values()):
         c = rng.choice([k for k, v in per.items() if v])
         order.append(per[c].pop(0))
+    for j in joins:
+        # a join is placed after at least one constructor of either side; later constructors extend the merged pipeline
+        pos_a = [i for i, st in enumerate(order) if st['chain'] == j['chain']]
+        pos_b = [i for i, st in enumerate(order) if st['chain'] == j['other']]
+        lo = max(pos_a[0], pos_b[0]) + 1
+        at = rng.randrange(lo, len(order) + 1)
+        # parents: a non-sink node of each side that exists at that point
+        ka = [st['kind'] for st in order[:at] if st['chain'] == j['chain']]
+        kb = [st['kind'] for st in order[:at] if st['chain'] == j['other']]
+        pa = [i for i, k in enumerate(ka) if k != 'sink']
+        pb = [i for i, k in enumerate(kb) if k != 'sink']
+        if not pa or not pb:
+            continue
+        j['parent'] = rng.choice(pa)
+        j['other_parent'] = rng.choice(pb)
+        # nodes created later in either chain must only refer to parents of their own original chain: they do,
+        # since 'parent' indexes the chain's own node list, which keeps its order at the front of the merged list
+        # only for the joining chain; later steps of the other chain are dropped to keep indices meaningful
+        order = order[:at] + [j] + [st for st in order[at:] if st['chain'] != j['other']]
+        for st in order[at + 1:]:
+            if st['chain'] == j['chain'] and 'parent' in st:
+                st['parent'] = min(st['parent'], len(ka) - 1)
     return {'format': 1, 'family': 'binding', 'property': 'C19', 'seed': seed, 'index': index, 'steps': order}
 
 
@@ -373,6 +428,10 @@ def shrink_candidates(sc):
         return copy.deepcopy(sc)
     steps = sc['steps']
     for i in range(len(steps) - 1, -1, -1):
+        if steps[i]['kind'] == 'join':
+            continue
+        if any(s['kind'] == 'join' for s in steps):
+            break          # (indices into merged pipelines: only the arguments are shrunk then)
         ch = steps[i]['chain']
         # only the last step of a chain, or a whole chain, can go
         later = [s for s in steps[i + 1:] if s['chain'] == ch]
@@ -387,6 +446,8 @@ def shrink_candidates(sc):
                 if c['steps']:
                     yield c
     for ch in set(s['chain'] for s in steps):
+        if any(s['kind'] == 'join' and ch in (s['chain'], s.get('other')) for s in steps):
+            continue
         c = clone()
         c['steps'] = [s for s in steps if s['chain'] != ch]
         if c['steps']:
